@@ -8,15 +8,18 @@ _VS_SETS = {
     5: ['bits_gray1', 'bits_gray2', 'bits_gray4', 'bits_gray3'],
     6: ['bits_rgb121', 'bits_rgb222', 'bits_bgr565'],
 }
+_VS_C02_ONLY = {7: ['virtual_rgb8']}      # function-backed views: values only (no addresses, no writes, no storage)
 _VS_DEPS = ['harness/vs_model.hpp', 'harness/vs_orgs.hpp', 'harness/vs_explore.hpp', 'harness/vs_groups.hpp',
             'harness/vs_c01.hpp', 'harness/vs_c02.hpp', 'harness/vs_c03.hpp']
 
-def _vs_tus(prefix, src):
-    return [dict(name='%s_%d' % (prefix, s), src=src, deps=_VS_DEPS, flags=['-DVS_SET=%d' % s]) for s in sorted(_VS_SETS)]
+def _vs_tus(prefix, src, extra=None):
+    sets = dict(_VS_SETS); sets.update(extra or {})
+    return [dict(name='%s_%d' % (prefix, s), src=src, deps=_VS_DEPS, flags=['-DVS_SET=%d' % s]) for s in sorted(sets)]
 
-def _vs_runs(prefix, bounds, shards, sets=None):
+def _vs_runs(prefix, bounds, shards, sets=None, extra=None):
     out = []
-    for s, groups in sorted(_VS_SETS.items()):
+    allsets = dict(_VS_SETS); allsets.update(extra or {})
+    for s, groups in sorted(allsets.items()):
         if sets is not None and s not in sets: continue
         for g in groups:
             out.append(dict(tu='%s_%d' % (prefix, s), group=g, bounds=dict(bounds), shards=shards))
@@ -33,17 +36,17 @@ CHECKS['C02'] = dict(
     technique='explicit-state breadth-first search over the real view factories, lock-step with an affine index-map model; per-state pixel/address/write-footprint oracle',
     rule='state = (static view type, affine map ox,oy,a,b,c,d, dims, channel selector, conversion flag, concrete locator origin/steps); '
          'initial states: every root shape (w,h) in 0..N squared x pad modes of 23 pixel organisations (interleaved 8/16/32f, planar, packed, bit-aligned incl. '
-         'non-byte-aligned rows) over an exactly-sized guarded buffer tagged through the raw model; transitions: flipped_up_down/left_right, transposed, '
+         'non-byte-aligned rows) over an exactly-sized guarded buffer tagged through the raw model, plus a function-backed (virtual_2d_locator) view checked by value; transitions: flipped_up_down/left_right, transposed, '
          'rotated90cw/ccw/180, subsampled(sx,sy<=maxsub), subimage (corner-anchored/1-inset or every sub-rectangle), nth_channel/kth_channel, color_converted; '
          'explored breadth-first to the depth bound with state merging; in every state: dims, value+address of every channel of every pixel, exact write footprint '
          'over the whole buffer, six algebraic identities. evaluations = states checked; non-trivial = non-empty states.',
     assumptions=_VS_ASSUME,
-    tus=_vs_tus('c02', 'harness/c02_views.cpp'),
-    runs=dict(quick=_vs_runs('c02', dict(N=3, depth=3, pads=2, subimage=1, maxsub=3), 2),
-              thorough=_vs_runs('c02', dict(N=5, depth=3, pads=3, subimage=1, maxsub=3), 8) +
-                       _vs_runs('c02', dict(N=3, depth=4, pads=2, subimage=2, maxsub=2), 8)),
+    tus=_vs_tus('c02', 'harness/c02_views.cpp', _VS_C02_ONLY),
+    runs=dict(quick=_vs_runs('c02', dict(N=3, depth=3, pads=2, subimage=1, maxsub=3), 2, extra=_VS_C02_ONLY),
+              thorough=_vs_runs('c02', dict(N=5, depth=3, pads=3, subimage=1, maxsub=3), 8, extra=_VS_C02_ONLY) +
+                       _vs_runs('c02', dict(N=3, depth=4, pads=2, subimage=2, maxsub=2), 8, extra=_VS_C02_ONLY)),
     witnesses_required=dict(all=['negative_step_states', 'transposed_states', 'channel_states', 'converted_states', 'subsampled_states']
-                                + ['org_' + g for gs in _VS_SETS.values() for g in gs]),
+                                + ['org_' + g for gs in _VS_SETS.values() for g in gs] + ['org_virtual_rgb8']),
     deadline=dict(quick=900, thorough=5400),
 )
 
@@ -67,6 +70,7 @@ _C01_ALLOC = {
     0: ['gray8', 'rgb8', 'rgba8'], 1: ['rgb16', 'rgb32f', 'gray16'], 2: ['rgb8_planar', 'rgb16_planar', 'rgba16_planar'],
     3: ['packed565_u16', 'packed1010102_u32', 'packed16x4_u64'], 4: ['bits_gray1', 'bits_gray2', 'bits_gray4', 'bits_gray7'],
     5: ['bits_rgb121', 'bits_rgb222', 'bits_bgr565'], 6: ['bits_rgb101010', 'bits_rgb121212', 'bits_rgba7777'],
+    7: ['rgb8_oddbase', 'rgb16_planar_oddbase', 'bits_bgr565_oddbase'],      # allocator handing out odd addresses
 }
 def _c01_alloc_runs(bounds, shards):
     return [dict(tu='c01a_%d' % s, group=g, bounds=dict(bounds), shards=shards) for s, gs in sorted(_C01_ALLOC.items()) for g in gs]
